@@ -19,3 +19,22 @@ TEXTS["C19"] = {
             "OCaml driver; Go harness. math.Log2 is validated by sweep, not modelled. No axioms (Closed under the global context).",
     "technique": "Coq proof over an executable Gallina model + differential correspondence check (extracted OCaml vs Go) + exhaustive field sweep",
 }
+
+TEXTS["C01"] = {
+    "text": "Machine-checked proof (Coq) over the selection loop transcribed from selection.go/transactionsHeapItem.go/selectionSessionWrapper.go, "
+            "parametrised by an arbitrary choice oracle (so it covers any heap order and any time-out): for every list of single-sender nonce-sorted "
+            "bunches, every session, gasRequested and maxNum, each sender's selected nonces are account nonce, +1, +2, ... in order (uint64 wrap of "
+            "latest+1 modelled). Tied to the code by feeding every implementation result to the proved-sound executable checker inside the model and "
+            "by exact comparison of selections under C03.",
+    "note": "Trusted: Coq kernel; hand-written model tied by differential runs (generators bound the tie); extraction; Go harness/monitors. "
+            "No axioms. The wall-clock time-out of the loop is covered by the oracle's freedom to stop anywhere.",
+    "technique": "Coq proof (loop invariant by induction, envelope model) + correspondence check: implementation results judged by the model's proved-sound boolean twin + independent Go monitors",
+}
+TEXTS["C02"] = {
+    "text": "Machine-checked proof (Coq), same envelope model as C01: results are distinct members of the bunches, at most maxNum, gas limits sum "
+            "(true integer sum) to the returned gas <= gasRequested, none is guarded, and the balance walk holds for arbitrary Z balances, shared "
+            "relayers and sender=relayer accounts. Tied to the code by judging every implementation result with the model's executable twins and by monitors.",
+    "note": "Trusted: Coq kernel; hand-written model tied by differential runs; extraction; Go harness/monitors. No axioms. The post-fix budget test "
+            "(gasLimit > gasRequested - accumulatedGas) is modelled with truncated subtraction; the invariant accGas <= gasRequested is proved.",
+    "technique": "Coq proof (loop invariant, envelope model) + correspondence check via proved-sound boolean twins on implementation results + Go monitors (math/big)",
+}
